@@ -261,6 +261,13 @@ def concurrent_scenarios():
                         "actions": ["keep-alive-switched-off", ka], "healthy_reg": 813, "expect_zero_at": 4.0,
                         "tasks": [{"start": 0.0, "steps": [["read", 811, 2], ["api", "set_keep_alive", False], ["read", 812, 2]]},
                                   {"start": 3.0, "steps": [["close"], ["sleep", 1.5], ["read", 813, 2], ["close"]]}]})
+            # overlapping requests (and a close() behind a request) in one event loop, then the same again from a NEW event loop
+            seg = [{"start": 0.0, "steps": [["read", 811, 2]]}, {"start": 0.1, "steps": [["read", 812, 2]]},
+                   {"start": 0.15, "steps": [["close"]] if transport == "tcp" else [["read", 813, 2]]}]
+            out.append({"transport": transport, "framing": framing, "keep_alive": ka, "T": 1, "R": 1,
+                        "by_reg": {811: [["delay", 0.3], ["delay", 0.3]], 812: ["now"], 813: ["now"]}, "after": "now", "gc": True,
+                        "actions": ["contention-in-two-event-loops"], "healthy_reg": 813, "expect_zero_at": 1e9, "all_reads_ok": True,
+                        "segments": [seg, seg, [{"start": 0.0, "steps": [["close"], ["read", 813, 2], ["close"]]}]]})
     return out
 
 
@@ -287,11 +294,19 @@ def run_concurrent_case(sc, part):
             live.pop(e[2], None)
     if not run.stop and run.end_live:
         vs.append((f"C10/{tr}/leak-at-end", f"{ctx}: sockets {sorted(run.end_live)} still open after the final close()"))
+    if sc.get("all_reads_ok"):
+        for c in run.calls:
+            if c["outcome"] != "ok" and not run.stop:
+                vs.append((f"C10/{tr}/next-request-fails", f"{ctx}: no fault was injected, yet {c['step']} ended {c['outcome']} ({c.get('msg', '')[:80]})"))
+                break
     healthy = [c for c in run.calls if c["step"][0] == "read" and c["step"][1] == 813]
     if not run.stop and (not healthy or healthy[0]["outcome"] != "ok"):
         vs.append((f"C10/{tr}/next-request-fails", f"{ctx}: healthy request ended {healthy[0]['outcome'] if healthy else 'never ran'}"))
     for w in run.warnings:
         if w.startswith("ResourceWarning"):
+            if ka and sc.get("segments") and "unclosed transport" in w:     # (same tolerance as in the sequential histories: see ASSUMPTIONS)
+                part.count("tolerated_unclosed_transport_of_closed_loop")
+                continue
             vs.append((f"C10/{tr}/resource-warning", f"{ctx}: {w[:160]}"))
     part.count("concurrent_close_and_requests")
     part.see(repr((tr, ka, str(sc["actions"]))))
